@@ -108,6 +108,11 @@ def run(prog, rep, tier):
         w = fwhere(f, li["node"])
         lf = [x for x in S.select("loop", qname=Q) if x.lid == lid]
         uncond = bool(apps) and bool(lf) and resolve(conj(apps[0].path)) == resolve(conj(lf[0].path))
+        if not mine and len(apps) <= 1:
+            # a loop that hands out targets drawn elsewhere (one pooled draw, then slices): another algorithm, whose
+            # disjointness / size argument these rules do not read
+            rep.unk("COUNT.K", w, "this loop draws nothing itself (targets drawn in one go and handed out afterwards?): idiom not read")
+            continue
         rep.check("COUNT.K", okK and len(apps) == 1 and len(mine) == 1 and len(apps[0].loops) == len(mine[0].loops) and uncond, w,
                   "range(K) iterations, one unconditional append each", "the loop does not append exactly one intervention in each of the K rounds (%s)" % (
                       "the append is conditional: %s" % sorted(pred_fmt(p_) for p_ in resolve(conj(apps[0].path)) - resolve(conj(lf[0].path))) if apps and lf and not uncond else "loop / append shape"))
@@ -146,6 +151,7 @@ def run(prog, rep, tier):
                 ok = init_ok and shrink and pool == mu
             rep.check("POOL.shrinks", ok, fwhere(f, d.node), "pool starts as range(p) and loses each intervention before the next draw: no variable twice",
                       "without replacement the pool is not `range(p)` minus everything drawn so far")
+    negative_zero_slices(rep, prog, [Q], rule="SLICE.minus-zero")
     ret = T(summ.ret)
     rep.check("RESULT.list", ret[0] == "phi" and ret[1] == REPL and all(x[0] == "after" for x in ret[2:4]), fwhere(f),
               "returns the list built by the selected mode", "result is %s" % fmt(ret)[:80])
